@@ -6,8 +6,11 @@ ID=$1; PATCH=$2; TIER=${3:-quick}
 cd /repo || exit 2
 if [ -n "$(git status --porcelain)" ]; then echo "/repo is dirty"; exit 2; fi
 git apply "$PATCH" || { echo "patch does not apply"; exit 2; }
+cp /verif/evidence/$ID.json /tmp/evidence_$ID.bak 2>/dev/null
 cd /verif && ./check "$ID" --tier "$TIER" > /tmp/seed_$ID.out 2>&1
 RC=$?
+# the evidence file must describe a run on the unchanged tree: restore it
+cp /tmp/evidence_$ID.bak /verif/evidence/$ID.json 2>/dev/null
 cd /repo && git checkout -- . && git status --porcelain | head -3
 grep -E "^VIOLATION|^KNOWN|quick:|thorough:" /tmp/seed_$ID.out | head -8
 echo "exit=$RC"
